@@ -253,6 +253,16 @@ func parseLine(line string, document *Document, family *FamilyNode) (Node, int, 
 	// Value (optional).
 	value := parts[4]
 
+	// The husband, wife and children belong to the most recent family. It is
+	// not valid for them to appear before there has been any family.
+	switch tag {
+	case TagHusband, TagWife, TagChild:
+		if family == nil {
+			return nil, 0, fmt.Errorf("%s without a family: %s",
+				tag.Tag(), line)
+		}
+	}
+
 	return newNode(document, family, tag, value, pointer), indent, nil
 }
 
